@@ -299,12 +299,9 @@ theorem place_ok (ctx : Ctx) (dir : Axis) (minor between : Nat) :
     refine ⟨t.setPos (dir.posFrom off (al.align (dir.minorS t.size) minor)) :: ts', o, by simp only [place, e], ?_⟩
     simp only [ShapedKids, setPos_size]
     exact ⟨hk.1.imp id (Shaped_setPos ctx v t _), hk'⟩
-theorem childMajorMax_le (remain : Nat) (f total : Q) : childMajorMax remain f total ≤ remain := by
+theorem childMajorMax_le (remain : Nat) (f total : F64) : childMajorMax remain f total ≤ remain := by
   unfold childMajorMax
-  simp only
-  split
-  · split <;> omega
-  · exact natMin_le_right _ _
+  exact natMin_le_right _ _
 
 theorem Bound_of_le {v : V} {ct : Ct} {t : LT} (h1 : t.size.h ≤ ct.max.h) (h2 : t.size.w ≤ ct.max.w) : Bound v ct t :=
   ⟨Or.inl h1, Or.inl h2⟩
@@ -371,8 +368,8 @@ theorem layout_total (ctx : Ctx) : ∀ (v : V) (ct : Ct), Valid ct → Machine c
     simp only [weight] at hw
     have hvl : Valid ct.loosen := ⟨Nat.zero_le _, Nat.zero_le _⟩
     have hml : Machine ct.loosen := hm
-    obtain ⟨ts1, a1, e1, hl1, hk1⟩ := phase1_total ctx dir ct.loosen hvl hml cs ⟨0, dir.minorS ct.min, Q.zero⟩ (by omega)
-    have h2 : ∃ ts2 a2, (if dir.majorS ct.max - a1.nonFlex > 0 ∧ a1.total.pos = true then
+    obtain ⟨ts1, a1, e1, hl1, hk1⟩ := phase1_total ctx dir ct.loosen hvl hml cs ⟨0, dir.minorS ct.min, F64.zero⟩ (by omega)
+    have h2 : ∃ ts2 a2, (if dir.majorS ct.max - a1.nonFlex > 0 ∧ a1.total.gt0 = true then
           phase2 ctx dir ct.loosen cs ts1 ⟨dir.majorS ct.max - a1.nonFlex, a1.total, 0, a1.minor⟩
         else Except.ok (ts1, ⟨dir.majorS ct.max - a1.nonFlex, a1.total, 0, a1.minor⟩)) = .ok (ts2, a2)
         ∧ ts2.length = cs.length ∧ ShapedKids ctx cs ts2 := by
